@@ -1008,6 +1008,18 @@ pub fn gen_c20(rng: &mut Rng, d: &mut Dist, _idx: u64) -> Vec<String> {
             // and is then re-loaded on its own (no reset), or everything is
             if rng.chance(2, 3) {
                 out.push(format!("OP c load_metadata {}", h(&cl.topics[ti].name)));
+                // calls naming the highest partition the topic had before or has now (what vanished is unknown from now on)
+                let tn = h(&cl.topics[ti].name);
+                let p = old.max(n) - 1;
+                for _ in 0..(1 + rng.below(2)) {
+                    match rng.below(5) {
+                        0 => out.push(format!("OP c fetch_messages {} {} 0 -1", tn, p)),
+                        1 => out.push(format!("OP c produce 1 1 0 {} {} ~ aa", tn, p)),
+                        2 => out.push(format!("OP c commit_offsets {} {} {} 3", h("grp"), tn, p)),
+                        3 => out.push(format!("OP c fetch_group_offsets {} {} {}", h("grp"), tn, p)),
+                        _ => out.push(format!("OP c fetch_offsets -1 {}", tn)),
+                    }
+                }
             }
         }
         match rng.below(13) {
